@@ -551,7 +551,10 @@ class MetaMessage(BaseMessage):
         flag = True
         while flag and scan_end < len(msg_bytes):
             scan_end += 1
-            length_data = msg_bytes[2:scan_end]
+            if msg_bytes[scan_end - 1] & 0x80:
+                # The variable length quantity continues.
+                continue
+            length_data = list(msg_bytes[2:scan_end])
             length = decode_variable_int(length_data)
             data = msg_bytes[scan_end:]
             if length == len(data):
